@@ -115,7 +115,7 @@ def rank : Val → Nat
   | .guid _ => 0
   | .arr vs => 1 + rankList vs
   | .map kvs => 1 + rankKVs kvs
-  | .struct fs => 1 + rankList fs
+  | .struct fs => 2 + rankList fs
   | .msg fs => 2 + rankFields fs
   | .union _ v => 2 + rank v
 def rankList : List Val → Nat
